@@ -15,6 +15,7 @@ def P(name, fn, entry, **kw):
 GROUPS = [
     P('poly_translate', 'translate', 'h_poly_translate', replace_extern=[]),
     P('poly_scale', 'scale', 'h_poly_scale', replace_extern=[]),
+    P('poly_mirror', 'mirror', 'h_poly_mirror', replace_extern=[], uf_fdiv=True, no_refine=True),
     P('poly_rotate', 'rotate', 'h_poly_rotate'),
     P('poly_transform', 'transform', 'h_poly_transform'),
     P('label_transform', 'transform', 'h_label_transform', tu='src/label.cpp', roots=['gdstk::Label::transform'],
